@@ -20,7 +20,13 @@ import (
 	"time"
 )
 
-const Root = "/verif"
+// Root is the verification root: /verif, or a snapshot of it when VERIF_ROOT says so.
+var Root = func() string {
+	if r := os.Getenv("VERIF_ROOT"); r != "" {
+		return r
+	}
+	return "/verif"
+}()
 
 // Case is one unit of workload. It must be fully determined by its fields.
 type Case struct {
